@@ -1,3 +1,4 @@
 import FggsProofs.Props.C08
 import FggsProofs.Props.C19
 import FggsProofs.Props.C20
+import FggsProofs.Props.C16
